@@ -812,6 +812,11 @@ func (f *Fam) checkParams(before, after *Snapshot, w []string, obs string, fail 
 			fail("param-authorised", "C17:param-changed-unauthorised", fmt.Sprintf("parameters %v changed by %q (acl raw %.200s)", changed, clip(strings.Join(w, " ")), before.Params["gov/acl"]))
 		}
 	}
+	// a DAO transfer or burn beyond the DAO balance is refused (delivered or simulated)
+	if isTx && (t.kind == "daotransfer" || t.kind == "daoburn") && t.mode != "check" && strings.HasPrefix(obs, "ok") &&
+		(t.mut == "none" || t.mut == "") && mustInt(t.f["amt"]).GT(balOf(before, daoAddr, Denom)) {
+		fail("dao-within-balance", "C17:dao-spend-beyond-balance", fmt.Sprintf("%s of %s accepted (%s) although the DAO holds %s", t.kind, t.f["amt"], t.mode, balOf(before, daoAddr, Denom)))
+	}
 	if !daoDelta.IsZero() {
 		ok := isTx && strings.HasPrefix(obs, "ok") && (t.kind == "daotransfer" || t.kind == "daoburn")
 		if ok {
